@@ -175,6 +175,8 @@ func c07Datasets() [][]c07Group {
 		{{"b", n(4, 4), n(1, 2)}, {"a", n(1, 1, 1), n(2, 2, 2)}},
 		// aggregates of one group on different sides of the HAVING thresholds (avg <= 1 < max < 5; avg > 1, max >= 5; min < 2, sum <= 6)
 		{{"a", n(0, 0, 3), n(1, 1, 1)}, {"b", n(5, 1), n(2, 2)}, {"c", n(1, 5), n(0, 1)}, {"d", n(2.5, 2.5), n(3, 3)}},
+		// sort keys closer than 1 to each other and on both sides of zero (arrival order differs from every sorted order)
+		{{"c", n(2.4), n(1)}, {"a", n(2.7), n(1)}, {"e", n(-0.4), n(1)}, {"b", n(2.1), n(1)}, {"d", n(0.4), n(1)}},
 	}
 }
 
@@ -579,7 +581,7 @@ func c07Class(p c07Prog) string {
 func (c07) Describe(tier string) fw.Description {
 	return fw.Description{
 		Level: "model_checking",
-		Rule: "exhaustive product of 11 SELECT item sets (plain aggregates, agg*lit, agg*lit+lit, agg+agg, parenthesised, aggregate over an expression argument, aggregates of two columns) x 8 HAVING predicates (selected aliases, unselected aggregates, AND/OR) x 7 ORDER BY lists x LIMIT {none,1,2,5} x DISTINCT, each on 6 datasets (1-3 interleaved groups, NULLs, ties) in one event-time tumbling window on the real engine; oracle = relational reference (ref.Agg per group -> item arithmetic -> HAVING -> multiset equality, sortedness by the ORDER BY keys, LIMIT keeps a prefix of the order, DISTINCT, no helper/unselected column); non-trivial = a batch with >= 2 rows",
+		Rule: "exhaustive product of 11 SELECT item sets (plain aggregates, agg*lit, agg*lit+lit, agg+agg, parenthesised, aggregate over an expression argument, aggregates of two columns) x 8 HAVING predicates (selected aliases, unselected aggregates, AND/OR) x 7 ORDER BY lists x LIMIT {none,1,2,5} x DISTINCT, each on 7 datasets (1-3 interleaved groups, NULLs, ties) in one event-time tumbling window on the real engine; oracle = relational reference (ref.Agg per group -> item arithmetic -> HAVING -> multiset equality, sortedness by the ORDER BY keys, LIMIT keeps a prefix of the order, DISTINCT, no helper/unselected column); non-trivial = a batch with >= 2 rows",
 		Bounds:      map[string]any{"programs": "see evaluations", "datasets": 5},
 		Assumptions: []string{"ties in ORDER BY are compared as multisets", "ordering of NULL keys is not asserted"},
 	}
